@@ -14,6 +14,10 @@ fn main() {
         "C02" => c02::run(tier),
         "C04" => c04::run(tier),
         "C05" => csem::c05(tier),
+        "C06" => csem::c06(tier),
+        "C07" => csem::c07(tier),
+        "C08" => csem::c08(tier),
+        "C09" => csem::c09(tier),
         "C04-child" => c04::child(tier, args.get(3).map(|s| s.as_str()).unwrap_or("?")),
         "C17" => c17::run(tier),
         other => {
